@@ -125,8 +125,21 @@ fn gen_c05(ctx: &GenCtx, i: u64) -> Option<Run> {
         let fm = footer.clone().unwrap_or_default();
         let seq: Vec<String> = vec![String::new(), nonempty_text!(r, 6), String::new(), fm.clone(), String::new(), fm, "zz".into(), String::new()];
         let control = plain_spec(&t, vlayer);
-        for f in seq {
-            rb.push(Op::Reconfigure { v, op: VOp::SetFooter(f) });
+        let mut steps: Vec<VOp> = seq.into_iter().map(VOp::SetFooter).collect();
+        // the same backing buffer, re-sliced: F+"xyz" -> F (prefix) -> proper prefix -> F -> empty slice -> F+"xyz"
+        let fm = footer.clone().unwrap_or_default();
+        steps.push(VOp::SetFooter(format!("{}xyz", fm)));
+        steps.push(VOp::SetFooterPrefixOfCurrent(fm.len()));
+        if fm.len() > 1 && fm.is_char_boundary(fm.len() / 2) {
+            steps.push(VOp::SetFooterPrefixOfCurrent(fm.len() / 2));
+            steps.push(VOp::SetFooterPrefixOfCurrent(fm.len()));
+        }
+        steps.push(VOp::SetFooterPrefixOfCurrent(0));
+        steps.push(VOp::SetFooterPrefixOfCurrent(fm.len()));
+        steps.push(VOp::SetFooterPrefixOfCurrent(fm.len() + 3));
+        steps.push(VOp::SetFooterPrefixOfCurrent(fm.len()));
+        for op in steps {
+            rb.push(Op::Reconfigure { v, op });
             rb.push(Op::Deliver { msg: t.msg, to: v, now_ns: Ns(at), ticks: vec![], twin: false, control: Some(Box::new(VerifierSpec { default_validators: vlayer == Layer::Batteries, ..control.clone() })), key: None });
         }
     }
@@ -238,8 +251,21 @@ fn gen_c06(ctx: &GenCtx, i: u64) -> Option<Run> {
                 let am = assertion.clone().unwrap_or_default();
                 let seq: Vec<String> = vec![String::new(), nonempty_text!(r, 6), String::new(), am.clone(), String::new(), am, "zz".into(), String::new()];
                 let control = plain_spec(&t, vlayer);
-                for a in seq {
-                    rb.push(Op::Reconfigure { v, op: VOp::SetAssertion(a) });
+                let mut steps: Vec<VOp> = seq.into_iter().map(VOp::SetAssertion).collect();
+                // the same backing buffer, re-sliced: A+"xyz" -> A (prefix) -> proper prefix -> A -> empty slice -> A -> A+"xyz" -> A
+                let am = assertion.clone().unwrap_or_default();
+                steps.push(VOp::SetAssertion(format!("{}xyz", am)));
+                steps.push(VOp::SetAssertionPrefixOfCurrent(am.len()));
+                if am.len() > 1 && am.is_char_boundary(am.len() / 2) {
+                    steps.push(VOp::SetAssertionPrefixOfCurrent(am.len() / 2));
+                    steps.push(VOp::SetAssertionPrefixOfCurrent(am.len()));
+                }
+                steps.push(VOp::SetAssertionPrefixOfCurrent(0));
+                steps.push(VOp::SetAssertionPrefixOfCurrent(am.len()));
+                steps.push(VOp::SetAssertionPrefixOfCurrent(am.len() + 3));
+                steps.push(VOp::SetAssertionPrefixOfCurrent(am.len()));
+                for op in steps {
+                    rb.push(Op::Reconfigure { v, op });
                     rb.push(Op::Deliver { msg: t.msg, to: v, now_ns: Ns(at), ticks: vec![], twin: false, control: Some(Box::new(VerifierSpec { default_validators: vlayer == Layer::Batteries, ..control.clone() })), key: None });
                 }
             }
